@@ -92,7 +92,7 @@ Proof.
     + intros H; inversion H; subst; auto.
 Qed.
 
-Lemma no_candidate_spec c s : match no_candidate c s with SSent _ _ _ => False | SDone _ evs => n_attempts evs = 0 /\ n_rearms evs = 0 end.
+Lemma no_candidate_spec c s : match no_candidate c s with SSent _ _ _ => False | SDone _ _ evs => n_attempts evs = 0 /\ n_rearms evs = 0 end.
 Proof.
   unfold no_candidate. destruct (any_pending s); auto.
   destruct (backoff c BoBusy s) as [s' e| |e] eqn:B; auto.
@@ -122,11 +122,11 @@ Qed.
 Lemma sel_phase_spec c s :
   match sel_phase c s with
   | SSent s' t evs => room s' + 1 <= room s /\ n_attempts evs = 0 /\ n_rearms evs = 0
-  | SDone _ evs => n_attempts evs = 0 /\ n_rearms evs = 0
+  | SDone _ _ evs => n_attempts evs = 0 /\ n_rearms evs = 0
   end.
 Proof.
   assert (NC : forall s0, match no_candidate c s0 with SSent s' t evs => room s' + 1 <= room s /\ n_attempts evs = 0 /\ n_rearms evs = 0
-                          | SDone _ evs => n_attempts evs = 0 /\ n_rearms evs = 0 end).
+                          | SDone _ _ evs => n_attempts evs = 0 /\ n_rearms evs = 0 end).
   { intros s0. pose proof (no_candidate_spec c s0). destruct (no_candidate c s0); tauto. }
   unfold sel_phase. cbv zeta.
   match goal with |- context [match ?e with Some _ => _ | None => _ end] => destruct e as [s0|] eqn:G end; [|apply NC].
